@@ -1,4 +1,8 @@
 use std::collections::HashMap;
+use std::sync::{
+    atomic::{AtomicBool, Ordering},
+    Arc,
+};
 
 #[cfg(feature = "protobuf")]
 use protobuf::MessageDyn;
@@ -60,6 +64,11 @@ pub struct BindContext<'a> {
     funcs: HashMap<String, &'a RsCelFunction>,
     macros: HashMap<String, &'a RsCelMacro>,
     types: HashMap<String, CelValue>,
+
+    // Only set on the compiler's own context (and shared by its clones): records that an
+    // evaluation touched something whose value is not known at compile time, so the
+    // compiler must not keep the result as a constant.
+    non_const: Option<Arc<AtomicBool>>,
 }
 
 impl<'a> BindContext<'a> {
@@ -70,6 +79,7 @@ impl<'a> BindContext<'a> {
             funcs: HashMap::new(),
             macros: HashMap::new(),
             types: HashMap::new(),
+            non_const: None,
         };
 
         load_default_macros(&mut ctx);
@@ -84,12 +94,28 @@ impl<'a> BindContext<'a> {
             funcs: HashMap::new(),
             macros: HashMap::new(),
             types: HashMap::new(),
+            non_const: Some(Arc::new(AtomicBool::new(false))),
         };
 
         load_compile_macros(&mut ctx);
         load_default_funcs(&mut ctx);
         load_default_types(&mut ctx);
+        // the clock is run-time state
+        ctx.funcs.remove("now");
         ctx
+    }
+
+    pub(crate) fn note_non_const(&self) {
+        if let Some(flag) = &self.non_const {
+            flag.store(true, Ordering::Relaxed);
+        }
+    }
+
+    pub(crate) fn take_non_const(&self) -> bool {
+        match &self.non_const {
+            Some(flag) => flag.swap(false, Ordering::Relaxed),
+            None => false,
+        }
     }
 
     /// Bind a param with the given name and value.
